@@ -28,7 +28,7 @@ class Spec:
         return self.joint
 
 
-def check_word(acc, spec, cpu, w, a, row, label, rng):
+def check_word(acc, spec, cpu, w, a, row, label, rng, cfgov=None):
     fo = [None]
 
     def full():
@@ -40,13 +40,16 @@ def check_word(acc, spec, cpu, w, a, row, label, rng):
     fmt = '%#010x' if spec.nbits == 32 else '%#06x'
     acc.case(defined, (spec.nbits, w), cls=label,
              sample=lambda: {'word': fmt % w, 'armulator': a, 'reference_row': row.name if row else None})
+    if not ok and cfgov is not None:
+        acc.cls('other-config:class-differs')        # class selection is decided on the default configuration (rule 7); here only operands
+        return
     if not ok:
         acc.violation('%s:class:%s-vs-%s' % (spec.prop, a, row.name if row else 'unallocated'),
                       {'word': w, 'nbits': spec.nbits, 'kind': 'class'},
                       {'armulator': a, 'expected': c, 'row': row.name if row else None, 'after_from_bitarray': full()})
         return
     if defined:
-        opnd.compare(acc, spec, cpu, w, row, rng, full)
+        opnd.compare(acc, spec, cpu, w, row, rng, full, cfgov)
 
 
 def get_spec(ref):
@@ -97,14 +100,20 @@ def random_shard(spec, seed, count):
     return acc
 
 
-def corner_shard(spec, idx, nshards, seed, per_row):
+def corner_shard(spec, idx, nshards, seed, per_row, cfgname=None):
     """row-directed: for every reference row, words whose fields take corner values (0, 1, max, max-1, single bits) in every combination
     of "one field at a corner, the others random" - the special cases of operand extraction (imm5 == 0 means 32, rotation 0, register 15,
     all-ones register lists, ...) sit at these corners and a uniformly random word reaches each with probability 2^-width"""
     spec = get_spec(spec)
     acc = Acc()
     rng = random.Random(seed)
-    cpu = spec.cpu()
+    cfgov = None
+    if cfgname is not None:
+        # operand extraction that depends on the architecture version (UNPREDICTABLE conditions, register restrictions): same words, other configuration
+        from vf import gen
+        cfgov = gen.CONFIGS[cfgname]
+        target.load_config(cfgov)
+    cpu = spec.cpu(cfgov)
     for j, row in enumerate(spec.table):
         if j % nshards != idx or row.cls in (UNDEF, NOTIMPL, UNPRED, NOPISH, dc.HINTISH):
             continue
@@ -126,16 +135,25 @@ def corner_shard(spec, idx, nshards, seed, per_row):
                         acc.cls('corner:other-row-has-priority')
                         continue
                     a = dc.outcome_of(spec.decoder, w)
-                    check_word(acc, spec, cpu, w, a, row, 'field-corner', rng)
+                    check_word(acc, spec, cpu, w, a, row, 'field-corner' + (':' + cfgname if cfgname else ''), rng, cfgov)
+    if cfgname is not None:
+        target.load_config(None)
     return acc
 
 
-def replay_word(spec, w):
+def replay_word(spec, w, cfgov=None):
     acc = Acc()
-    cpu = spec.cpu()
-    a = dc.outcome_of(spec.decoder, w)
-    row, _ = table_decode(spec.table, w)
-    check_word(acc, spec, cpu, w, a, row, 'replay', random.Random(0))
+    if cfgov is not None:
+        target.load_config(cfgov)
+    try:
+        cpu = spec.cpu(cfgov)
+        a = dc.outcome_of(spec.decoder, w)
+        row, _ = table_decode(spec.table, w)
+        for sd in range(4):          # the operand comparison draws flags / IT position: a few draws
+            check_word(acc, spec, cpu, w, a, row, 'replay', random.Random(sd), cfgov)
+    finally:
+        if cfgov is not None:
+            target.load_config(None)
     return sorted(acc.viol)
 
 
